@@ -6,7 +6,7 @@ From Coq Require Import Permutation Sorting.Sorted.
 From RtoscV Require Import Match.PatSpec Match.MatchModel Osc.OscModel Osc.OscReadProofs Ports.MetaModel Ports.NameModel Ports.PathModel
                            Ports.PathProofs Ports.SearchProofs Ports.PathRegress Ports.WalkModel Ports.WalkProofs Ports.LookupProofs
                            Ports.EnumProofs Ports.DispatchWalk Ports.LookupGen Ports.NamesModel Ports.NamesOk
-                           Ports.LookupSpec Ports.LookupSpecProofs.
+                           Ports.LookupSpec Ports.LookupSpecProofs Ports.LookupAddr.
 Import ListNotations.
 Local Open Scope Z_scope.
 
@@ -43,7 +43,8 @@ Proof. exact (conj components_ex collapse_ex3). Qed.
 (* ---- child search ---------------------------------------------------------- *)
 (* [addressed root loc = AdOk ch]: ch are the ports the location addresses (the
    root table for "" and "/", the children of the port apropos finds, or that
-   port itself if it has none); metadata blocks in the macro layout (C17) or
+   port itself if it has none; C18_search_addressed below ties this to the
+   Spec's own reading of an address); metadata blocks in the macro layout (C17) or
    absent.  Option unmodified: exactly the children whose names start with the
    needle, each paired with its metadata bytes, in table order. *)
 Theorem C18_search_unmodified : forall root loc needle ch,
@@ -124,6 +125,55 @@ Theorem C18_search_nonvacuous :
   path_search ex_table [] [] SortedUniquePrefix =
     SOk (map hit_of [Port [97;47] None None; Port [97;47] None None; Port [98] None None]).
 Proof. exact ex_search. Qed.
+
+(* ---- which port a location addresses -------------------------------------------
+   The search theorems above speak about [addressed root loc], which the model
+   computes with its own apropos.  Independently of apropos:
+   [addresses root id a] (coq/Ports/LookupSpec.v) - the relative address a names
+   the port at index path id by structural descent: at every level the name of
+   the port on the path, read as a C05 pattern (PatSpec.spells: literal text
+   verbatim, at every '#N' a decimal index below N), spells the next part of
+   a, and a ends with the name of the port itself (a sub-tree port: with its
+   '/').  For trees with names_ok, apropos returns exactly that port - leaf or
+   sub-tree, at any depth - and the table path_search looks at is its children
+   (the port itself if it has none). *)
+Theorem C18_addressed_port : forall root id a,
+  names_ok root = true -> addr_ok a -> addresses root id a ->
+  apropos (map render_port root) (47 :: a) = AFound id.
+Proof. exact apropos_addresses. Qed.
+
+Theorem C18_search_addressed : forall root id a q,
+  names_ok root = true -> addr_ok a -> addresses root id a -> sport_at root id = Some q ->
+  addressed (map render_port root) (47 :: a) = AdOk (children_of q).
+Proof. exact addressed_is_spec. Qed.
+
+(* composed with C18_search_unmodified: a search at the address of a port returns
+   exactly the direct children of that port whose names start with the needle
+   (C18_search_sorted / _unique_prefix / C18_reply_wellformed compose the same way) *)
+Theorem C18_search_at_address : forall root id a q needle,
+  names_ok root = true -> addr_ok a -> addresses root id a -> sport_at root id = Some q ->
+  Forall (fun p => meta_wf (pmeta p)) (children_of q) ->
+  path_search (map render_port root) (47 :: a) needle Unmodified =
+    SOk (map hit_of (spec_children needle (children_of q))).
+Proof. exact search_at_address. Qed.
+
+(* a table that is neither the root nor a single child:
+   "s/" -> { "osc#3/" -> { "vol" (doc), "qan:i", "pb/" -> { "l" }, "pa" }, "x" }, "t";
+   "s/osc1/" (and "s/osc01/") names the port [0;0] with its four children *)
+Theorem C18_search_addressed_nonvacuous :
+  names_ok ex_nested = true /\
+  addresses ex_nested [0%nat; 0%nat] [115; 47; 111; 115; 99; 49; 47] /\
+  (exists q, sport_at ex_nested [0%nat; 0%nat] = Some q /\ length (children_of q) = 4%nat) /\
+  path_search (map render_port ex_nested) [47; 115; 47; 111; 115; 99; 49; 47] [] Unmodified =
+    SOk [{| e_name := Some [118; 111; 108]; e_data := Some [58; 100; 111; 99; 0; 61; 118; 0; 0]; e_len := 9 |};
+         {| e_name := Some [113; 97; 110; 58; 105]; e_data := None; e_len := 0 |};
+         {| e_name := Some [112; 98; 47]; e_data := None; e_len := 0 |};
+         {| e_name := Some [112; 97]; e_data := None; e_len := 0 |}] /\
+  path_search (map render_port ex_nested) [47; 115; 47; 111; 115; 99; 49; 47] [112] Sorted =
+    SOk [{| e_name := Some [112; 97]; e_data := None; e_len := 0 |};
+         {| e_name := Some [112; 98; 47]; e_data := None; e_len := 0 |}] /\
+  addresses ex_nested [0%nat; 0%nat] [115; 47; 111; 115; 99; 48; 49; 47].
+Proof. exact ex_nested_addressed. Qed.
 
 (* ---- lookup of walked addresses ----------------------------------------------
    The clause of the property text:
